@@ -57,6 +57,21 @@ CHECKS = {
              "table; cropping is idempotent (replacement by non-detections). Tie: crop family with hits at, around and above the "
              "limit, all hit types.",
         ref='§6 C07', technique='Lean 4 proof (row-wise filterMap lemmas, congruence of run) + correspondence'),
+    'C08': dict(
+        text="PARTIAL. Proved: the cascade model is total on accepted input with in-domain parameters and third-party answers "
+             "of the documented shape (run returns a chunk; no AmpycloudError of the code itself, no assert, no "
+             "IndexError/TypeError is reachable; without assumption A3 on the selected mixture only the empty-component "
+             "AmpycloudError or the bare assert remain); construction refusals are AmpycloudError. Not provable by any model "
+             "of ampycloud: that scikit-learn/statsmodels/numpy/pandas do not raise inside their documented domain - that "
+             "residue is searched (all scene families, random in-domain parameters; any exception is a violation).",
+        ref='§6 C08', technique='Lean 4 proof of totality of the cascade model + crash search on the real code (search part is exploration)'),
+    'C10': dict(
+        text="Lean theorems: in the model a frame's columns are read by name and its index is never read (F1 repaired by an "
+             "index reset), so relabelling, extra columns and dtype variants leave runFrom unchanged - immediate in the model. "
+             "The content is the tie: the real cascade on relabelled (shuffled/offset/float/string/repeated via pd.concat), "
+             "column-permuted, extra-column and dtype-variant frames must be bit-identical to the plain frame, which in turn "
+             "is re-run by the model.",
+        ref='§6 C10', technique='Lean 4 proof (index/layout not read by the model) + metamorphic check on the real code tied to the model'),
     'C15': dict(
         text="Lean theorems on the model of check_data_consistency over coercible frames: it raises iff the documented list "
              "holds (not a frame, empty, missing column, duplicated coerced rows, 0/non-0 or VV/non-VV on the same "
@@ -64,6 +79,12 @@ CHECKS = {
              "second pass is the identity and warns about no column/dtype. Tie: 600/12000 frames built by one or two defects; "
              "raise/no-raise, class, values, dtypes, warning kinds, idempotence, argument untouched, chunk construction agrees.",
         ref='§6 C15', technique='Lean 4 proof (case analysis of the check cascade) + defect-directed differential testing'),
+    'C16': dict(
+        text="Lean theorem C16_equivariant: the cascade model is polymorphic in the ceilometer-name type with decidable "
+             "equality only, and for every injective renaming f (exclusion list mapped) run commutes with f: identical ids, "
+             "tables, flag, messages. Tie: real cascade on renamed frames (order-reversing, '10'<'9', substring, whitespace, "
+             "long, unicode, empty-ish names) must be bit-identical and hand identical arguments to every third-party kernel.",
+        ref='§6 C16', technique='Lean 4 proof (equivariance under injective maps, parametricity in the name type) + metamorphic check'),
     'C17': dict(
         text="Lean theorems C17_length/_char/_prefix/_at_most_three/_zero_never about the model of "
              "icao.significant_cloud for every integer sequence of any length; the model is tied to the real "
